@@ -149,6 +149,48 @@ func catalogue(sc *issuer.Scenario, rng *rand.Rand) []issuer.Mut {
 			e.Reg = append(e.Reg, issuer.RegEntry{Type: "Iden3commRevocationStatusV1.0", Answer: e.Reg[0].Answer.Clone()})
 			e.Reg[0].Answer = nil
 		}},
+		// ---- a nested statusIssuer entry is NOT a fallback for the auth claim's status: when the
+		// primary entry cannot be resolved the verification fails, whatever statusIssuer says
+		{"status-primary-resolver-error-statusissuer-same-nonce", "reject", func(p *issuer.ProofJ, e *issuer.Env) {
+			st := issuer.StatusEntry("https://status.example/x", sc.P.AuthNonce)
+			st["statusIssuer"] = map[string]any{"id": "https://backup.example/x", "type": "Iden3commRevocationStatusV1.0", "revocationNonce": sc.P.AuthNonce}
+			p.IssuerData.CredentialStatus = st
+			e.Reg = append(e.Reg, issuer.RegEntry{Type: "Iden3commRevocationStatusV1.0", Answer: e.Reg[0].Answer.Clone()})
+			e.Reg[0].Answer = nil
+		}},
+		{"status-primary-unregistered-statusissuer-other-nonce", "reject", func(p *issuer.ProofJ, e *issuer.Env) {
+			st := map[string]any{"id": "x", "type": "Iden3ReverseSparseMerkleTreeProof", "revocationNonce": sc.P.AuthNonce}
+			st["statusIssuer"] = map[string]any{"id": "https://backup.example/x", "type": issuer.StatusType, "revocationNonce": sc.P.AuthNonce + 1}
+			p.IssuerData.CredentialStatus = st
+			if a, err := sc.Issuer.RevocationAnswer(sc.P.AuthNonce+1, false); err == nil {
+				e.Reg = []issuer.RegEntry{{Type: issuer.StatusType, Answer: a}}
+			}
+		}},
+		{"status-primary-resolver-error-statusissuer-other-nonce", "reject", func(p *issuer.ProofJ, e *issuer.Env) {
+			st := issuer.StatusEntry("https://status.example/x", sc.P.AuthNonce)
+			st["statusIssuer"] = map[string]any{"id": "https://backup.example/x", "type": "Iden3commRevocationStatusV1.0", "revocationNonce": sc.P.AuthNonce + 1}
+			p.IssuerData.CredentialStatus = st
+			if a, err := sc.Issuer.RevocationAnswer(sc.P.AuthNonce+1, false); err == nil {
+				e.Reg = []issuer.RegEntry{{Type: issuer.StatusType, Answer: nil}, {Type: "Iden3commRevocationStatusV1.0", Answer: a}}
+			}
+		}},
+		{"status-primary-resolver-error-statusissuer-revoked", "reject", func(p *issuer.ProofJ, e *issuer.Env) {
+			st := issuer.StatusEntry("https://status.example/x", sc.P.AuthNonce)
+			st["statusIssuer"] = map[string]any{"id": "https://backup.example/x", "type": "Iden3commRevocationStatusV1.0", "revocationNonce": sc.P.AuthNonce}
+			p.IssuerData.CredentialStatus = st
+			e.Reg = []issuer.RegEntry{{Type: issuer.StatusType, Answer: nil}, {Type: "Iden3commRevocationStatusV1.0", Answer: sc.Revoked.Clone()}}
+		}},
+		{"status-primary-revoked-statusissuer-unrevoked", "reject", func(p *issuer.ProofJ, e *issuer.Env) {
+			st := issuer.StatusEntry("https://status.example/x", sc.P.AuthNonce)
+			st["statusIssuer"] = map[string]any{"id": "https://backup.example/x", "type": "Iden3commRevocationStatusV1.0", "revocationNonce": sc.P.AuthNonce}
+			p.IssuerData.CredentialStatus = st
+			e.Reg = []issuer.RegEntry{{Type: issuer.StatusType, Answer: sc.Revoked.Clone()}, {Type: "Iden3commRevocationStatusV1.0", Answer: e.Reg[0].Answer.Clone()}}
+		}},
+		{"status-primary-fine-statusissuer-unresolvable", "accept", func(p *issuer.ProofJ, e *issuer.Env) {
+			st := issuer.StatusEntry("https://status.example/x", sc.P.AuthNonce)
+			st["statusIssuer"] = map[string]any{"id": "https://backup.example/x", "type": "NoSuchStatusType", "revocationNonce": sc.P.AuthNonce + 9}
+			p.IssuerData.CredentialStatus = st
+		}},
 		{"status-resolver-error", "reject", func(p *issuer.ProofJ, e *issuer.Env) { e.Reg[0].Answer = nil }},
 		{"status-registry-empty", "reject", func(p *issuer.ProofJ, e *issuer.Env) { e.Reg = nil }},
 		// ---- status answer (C09's clauses, one fault each)
